@@ -210,7 +210,7 @@ def run(ctx, cases, ref=False):
         p = None if s.startswith(("EXC", "UNPARSED")) else parse(s)
         parsed.append(p)
         if p is not None:
-            lines.append(dict(base, cmd="print_spec", printed=p))
+            lines.append(dict(base, cmd="print_spec", text=s))
     replies = ctx.model(lines, ref=ref)
     failures, nontriv, skipped = [], set(), 0
     dist = collections.Counter()
@@ -227,6 +227,14 @@ def run(ctx, cases, ref=False):
             i += 1
         inp = {"v": c["v"], "e": c["e"], "style": c["style"], "mode": c["mode"], "n": c["n"],
                "how": c.get("how", "str"), "v_exact": ratio(c["v"]), "e_exact": ratio(c["e"])}
+        if spec is not None and (spec.get("fail") == "unparsed" or (
+                "parsed" in spec and any(str(spec["parsed"][k]) != str(p[k])
+                                         for k in ("mv", "me", "dv", "de", "p", "sci", "latex")))):
+            failures.append({"signature": "c09:parsers-differ", "kind": "disagreement",
+                             "what": "the Lean parser (parsePrinted) and the harness regex read the "
+                                     "printed text differently", "input": inp, "impl": s,
+                             "expected": p, "lean": spec.get("parsed", spec.get("fail"))})
+            continue
         if "fail" in m or "fail" in md or (spec is not None and "fail" in spec):
             failures.append({"signature": "c09:model-error", "kind": "disagreement",
                              "what": "model driver: " + str(m.get("fail") or md.get("fail")
